@@ -307,7 +307,11 @@ func c05OneAdj(r mon.ReprCase) bool {
 func c05RunConc(c *mon.Ctx, seed uint64) {
 	r := concRng("C05", seed)
 
-	var jobs []func() string
+	var (
+		jobs         []func() string
+		prevA, prevB *secp256k1.Element
+		prevWant     int
+	)
 
 	for i := 0; i < concJobs; i++ {
 		p := gen.Fresh(r)
@@ -323,9 +327,16 @@ func c05RunConc(c *mon.Ctx, seed uint64) {
 		}
 
 		a, b := mon.Elem(p.P, gen.DrawRepr(r, false)), mon.Elem(q.P, gen.DrawRepr(r, false))
+		if i >= 2 && i%4 >= 2 {
+			// compare the very objects an earlier job is comparing at the same time (Equal only reads)
+			a, b, want = prevA, prevB, prevWant
+		}
+
+		prevA, prevB, prevWant = a, b, want
+		w := want
 		jobs = append(jobs, func() string {
-			if x, y := a.Equal(b), b.Equal(a); x != want || y != want {
-				return fmt.Sprintf("Equal=%d/%d, want %d", x, y, want)
+			if x, y := a.Equal(b), b.Equal(a); x != w || y != w {
+				return fmt.Sprintf("Equal=%d/%d, want %d", x, y, w)
 			}
 
 			if a.IsIdentity() {
